@@ -23,7 +23,7 @@ class Runaway(RuntimeError):
 
 class _State:
     installed = False
-    helper_atol = 1e-7
+    helper_rtol = 1e-9
     session = None
     counts = {"sample_discrete": 0, "sample_discrete_maps": 0, "forward_batches": 0, "choice_calls": 0,
               "helper_groups_verified": 0}
@@ -100,7 +100,7 @@ def _verify_helper(widx, wtab, out, calls, k):
                 continue
             if list(a.tolist()) != list(range(k)):
                 continue
-            if not np.allclose(pc, p, atol=ST.helper_atol, rtol=0):
+            if not np.allclose(pc, p, atol=1e-30, rtol=ST.helper_rtol):
                 continue
             if not np.array_equal(out[rows], oc):
                 continue
